@@ -178,6 +178,8 @@ class Gen:
         # ---- split the block into sections
         contract, attrs, entry, loops, closures, replaces, nested = [], [], [], {}, {}, [], {}
         sreplaces = []
+        optional_loops = set()
+        self._optional_loops = optional_loops
         selfmut = False
         cur = contract
         k = 0
@@ -194,6 +196,8 @@ class Gen:
                     cur = contract
                 elif p[0] == "loop":
                     cur = loops.setdefault(int(p[1]), [])
+                    if len(p) > 2 and p[2].strip() == "optional":
+                        optional_loops.add(int(p[1]))
                 elif p[0] == "closure":
                     hdr = st[3:].split(None, 2)[2]
                     cur = []
@@ -213,10 +217,11 @@ class Gen:
                     sreplaces.append((int(m.group(1)), m.group(2), m.group(3), ln))
                 elif p[0] in ("replace", "rreplace"):
                     # replace: OLD is Rust text matched token-wise (whitespace-insensitive); rreplace: OLD is a regular expression
-                    m = re.match(r"r?replace\s+(\d+)\s+/(.*)/\s*=>\s*/(.*)/\s*$", st[3:])
+                    m = re.match(r"r?replace\s+(\d+|\?)\s+/(.*)/\s*=>\s*/(.*)/\s*$", st[3:])
                     if not m:
                         raise Lost("%s:%d: bad //@replace" % (rel, ln))
-                    replaces.append((int(m.group(1)), m.group(2), m.group(3), ln, p[0] == "rreplace"))
+                    # count `?` = zero or one occurrence (an anchor that a code change may legitimately remove)
+                    replaces.append((-2 if m.group(1) == "?" else int(m.group(1)), m.group(2), m.group(3), ln, p[0] == "rreplace"))
                 elif p[0] == "selfmut":
                     selfmut = True
                 elif p[0] == "nested":
@@ -487,6 +492,9 @@ class Gen:
             i += 1
         for n, lines in loops.items():
             if n >= len(lp):
+                if n in getattr(self, "_optional_loops", set()):
+                    self.count("loop-absent")
+                    continue
                 raise Lost("%s: loop ordinal %d not found (function has %d loops)" % (path, n, len(lp)))
             sp = "\n" + "\n".join(l for _, l in lines) + "\n"
             add_before(lp[n][1], sp, part="loop%d" % n, spec_lines=[ln for ln, _ in lines], spec_file=rel)
@@ -655,6 +663,11 @@ class Gen:
             found = [m for m in rx.finditer(s)]
             if cnt == -1:
                 self.count("hint" if found else "hint-dropped")
+                continue
+            if cnt == -2:
+                if len(found) > 1:
+                    raise Lost("%s (%s:%d): R6 pattern /%s/ matched %d times, expected at most 1" % (path, rel, ln, old, len(found)))
+                self.count("R6" if found else "R6-absent")
                 continue
             if len(found) != cnt:
                 raise Lost("%s (%s:%d): R6 pattern /%s/ matched %d times, expected %d" % (path, rel, ln, old, len(found), cnt))
